@@ -386,15 +386,28 @@ def _fx_fpn(td, variant):
     return d, {"fixed_pattern_noise_factor": 0.01}
 
 
+def _spectrum_file(td):
+    spec = Path(td) / "energy_spectrum.txt"
+    if not spec.exists():
+        np.savetxt(spec, np.array([[0.5, 1.0], [1.0, 3.0], [2.0, 2.0], [5.0, 0.5]]))
+    return str(spec)
+
+
 def _fx_cd(td, variant):
-    return _det("ccd"), {"flux": 3.0, "step_size": 1.0, "energy_mean": 1.0, "energy_spread": 0.1,
-                         "particle_direction": ("isotropic", "orthogonal")[variant],
-                         "stopping_power_curve": str(_data_dir() / "protons-in-silicon_stopping-power.csv")}
+    kw = {"flux": 3.0, "step_size": 1.0, "energy_mean": 1.0, "energy_spread": 0.1,
+          "particle_direction": ("isotropic", "orthogonal")[variant % 2],
+          "stopping_power_curve": str(_data_dir() / "protons-in-silicon_stopping-power.csv")}
+    if variant >= 2:          # particle energies drawn from a spectrum file (another stochastic branch of the model)
+        kw.update(energy_spectrum=_spectrum_file(td), energy_spectrum_sampling=("log", "linear")[variant - 2])
+    return _det("ccd"), kw
 
 
 def _fx_cdmct(td, variant):
-    return _det("cmos"), {"flux": 3.0, "step_size": 1.0, "energy_mean": 1.0, "energy_spread": 0.1, "cutoff_wavelength": 2.5,
-                          "stopping_power_curve": str(_data_dir() / "mct-stopping-power.csv")}
+    kw = {"flux": 3.0, "step_size": 1.0, "energy_mean": 1.0, "energy_spread": 0.1, "cutoff_wavelength": 2.5,
+          "stopping_power_curve": str(_data_dir() / "mct-stopping-power.csv")}
+    if variant >= 1:
+        kw.update(energy_spectrum=_spectrum_file(td), energy_spectrum_sampling=("log", "linear")[variant - 1])
+    return _det("cmos"), kw
 
 
 def _fx_cosmix(td, variant):
@@ -487,8 +500,8 @@ def _fx_pulse(td, variant):
 FIXTURES = {
     "pyxel.models.photon_collection.shot_noise.shot_noise": (_fx_shot, 2),
     "pyxel.models.charge_collection.fixed_pattern_noise.fixed_pattern_noise": (_fx_fpn, 1),
-    "pyxel.models.charge_generation.charge_deposition.charge_deposition": (_fx_cd, 2),
-    "pyxel.models.charge_generation.charge_deposition.charge_deposition_in_mct": (_fx_cdmct, 1),
+    "pyxel.models.charge_generation.charge_deposition.charge_deposition": (_fx_cd, 4),
+    "pyxel.models.charge_generation.charge_deposition.charge_deposition_in_mct": (_fx_cdmct, 3),
     "pyxel.models.charge_generation.cosmix.cosmix.cosmix": (_fx_cosmix, 2),
     "pyxel.models.charge_generation.dark_current.dark_current": (_fx_dc, 1),
     "pyxel.models.charge_generation.dark_current_induced.radiation_induced_dark_current": (_fx_ridc, 1),
@@ -607,6 +620,43 @@ def snap(det):
     return h.hexdigest()[:16]
 
 
+def _auto_variants(target):
+    """One-deviation variants of the base fixture computed from the model's signature: every other value of every
+    Literal-typed or boolean keyword (a mode switch may select another stochastic branch).  A deviation that the
+    model rejects is counted, not reported."""
+    import typing
+
+    func, _mod = _resolve(target)
+    fx, _nv = FIXTURES[target]
+    td = tempfile.mkdtemp(prefix="vp_c04_")
+    try:
+        _det0, base = fx(td, 0)
+    finally:
+        shutil.rmtree(td, ignore_errors=True)
+    try:
+        hints = typing.get_type_hints(func)
+    except Exception:  # noqa: BLE001
+        hints = {}
+    out = []
+    for name, p in inspect.signature(func).parameters.items():
+        if name in ("detector", "seed"):
+            continue
+        ann = hints.get(name)
+        vals = []
+        if ann is bool:
+            vals = [True, False]
+        else:
+            cands = [ann] + list(typing.get_args(ann) if typing.get_origin(ann) is not typing.Literal else [])
+            for c in cands:
+                if typing.get_origin(c) is typing.Literal:
+                    vals += [v for v in typing.get_args(c) if isinstance(v, (str, bool, int))]
+        cur = base.get(name, p.default)
+        for v in vals:
+            if v != cur or type(v) is not type(cur):
+                out.append(["auto", name, v])
+    return out
+
+
 def _call_target(target, variant, seed, prior, td, fail_at=None, outer_seed=None):
     """One execution: returns dict(before, after, out, exc, draws).
     outer_seed: the model gets no seed of its own (seed=None) and runs inside `set_random_seed(outer_seed)` - what a
@@ -622,7 +672,11 @@ def _call_target(target, variant, seed, prior, td, fail_at=None, outer_seed=None
         setattr(smod, stub[1], _stub_convert_to_phase)
     cwd = os.getcwd()
     try:
-        det, kw = fx(td, variant)
+        if isinstance(variant, list):               # ["auto", keyword, value]: base fixture with one keyword deviating
+            det, kw = fx(td, 0)
+            kw = dict(kw, **{variant[1]: variant[2]})
+        else:
+            det, kw = fx(td, variant)
         os.chdir(td)                                 # cosmix writes 'data/cosmix-*.npy' relative to the working directory
         if "seed" in inspect.signature(func).parameters:
             kw = dict(kw, seed=seed if outer_seed is None else None)
@@ -681,6 +735,9 @@ def _model_case(case, td):
                 f"process-wide generator state after the call differs from the state before (prior state {prior!r}"
                 + (f"; the call raised {type(r['exc']).__name__}: {str(r['exc'])[:120]}" if r["exc"] is not None else "") + ")",
                 raised=r["exc"] is not None)
+        if r["exc"] is not None and isinstance(variant, list):
+            return viol, {"model_executions": n_exec, "fault_sites": 0, "transitions": n_exec,
+                          "auto_variants_rejected": 1}, {"rejected": type(r["exc"]).__name__, "out": [], "draws": 1}
         if r["exc"] is not None and "seed-parameter" in kind:
             bad("fixture-raised", f"the fixture call raised {type(r['exc']).__name__}: {str(r['exc'])[:200]}")
             break
@@ -741,8 +798,8 @@ def _model_cases(tier, target, kind):
     fx, nvar = FIXTURES[target]
     seeds = MODEL_SEEDS[tier] if "seed-parameter" in kind else (None,)
     cases = []
-    for variant in range(nvar):
-        for s in seeds:
+    for variant in list(range(nvar)) + _auto_variants(target):
+        for s in (seeds if not isinstance(variant, list) else seeds[:1]):
             priors = list(MODEL_PRIORS[tier])
             cases.append({"part": "model", "target": target, "kind": kind, "variant": variant, "seed": s,
                           "priors": priors, "fault_priors": priors if tier == "thorough" else priors[:1]})
@@ -879,7 +936,7 @@ def do_run(mode, sub, pipeline_seed, td, islands=1, fault=None):
                 parameters=[ParameterValues(key="pipeline.photon_collection.illumination.arguments.level", values="_",
                                             boundaries=(50.0, 400.0))],
                 result_type="pixel", result_fit_range=(0, 3, 0, 4), target_fit_range=(0, 3, 0, 4),
-                pygmo_seed=11 + _vseed() % 50, pipeline_seed=pipeline_seed, num_islands=islands, num_evolutions=2,
+                pygmo_seed=(0 if pipeline_seed == 0 else 11 + _vseed() % 50), pipeline_seed=pipeline_seed, num_islands=islands, num_evolutions=2,
                 num_best_decisions=2)
             import dask
 
@@ -955,12 +1012,14 @@ def _run_history(case, td, reference=None):
     """Replays one history, then the run under test. Returns (violations, result signature, n transitions)."""
     mode, sub, hist, islands = case["mode"], case["config"], case["history"], case.get("islands", 1)
     other = case["other"]
-    pseed = 1000 + _vseed()
+    pseed = 0 if case.get("zero") else 1000 + _vseed()      # "zero": pipeline seed 0 and optimiser seed 0 (valid seeds)
     kinds = sorted({op[0] for op in hist})
     viol = []
 
     def bad(code, what):
         key = {"part": "run", "mode": mode, "code": code, "history": "+".join(kinds) or "none"}
+        if case.get("zero"):
+            key["seed"] = 0
         if mode == "calibration":
             key["islands"] = islands
         viol.append((key, f"[{mode}{' islands=' + str(islands) if mode == 'calibration' else ''}] stochastic models "
@@ -995,6 +1054,8 @@ def _run_shard(shard):
     try:
         hists, alpha = histories(mode, tier)
         base = {"part": "run", "mode": mode, "config": sub, "islands": islands, "other": other}
+        if shard.get("zero"):
+            base["zero"] = True
         v0, ref, n0, st0 = _run_history(dict(base, history=[]), td)
         # non-vacuity: another pipeline seed must give another result (the pipeline really is stochastic)
         set_prior("A")
@@ -1005,7 +1066,7 @@ def _run_shard(shard):
             v, sig, n, st = _run_history(case, td, reference=ref)
             counts["run_histories"] += 1
             counts["transitions"] += n
-            states.add(f"{mode}:{'+'.join(sub)}:{islands}:{st}:{sig}")
+            states.add(f"{mode}:{'+'.join(sub)}:{islands}:{int(bool(shard.get('zero')))}:{st}:{sig}")
             for key, what in v:
                 kk = repr(sorted(key.items()))
                 if kk not in seen:
@@ -1015,7 +1076,7 @@ def _run_shard(shard):
     finally:
         shutil.rmtree(td, ignore_errors=True)
     return {"violations": viols, "counts": counts,
-            "sets": {"run_configs": [f"{mode}:{'+'.join(sub)}:{islands}"],
+            "sets": {"run_configs": [f"{mode}:{'+'.join(sub)}:{islands}" + (":seed0" if shard.get("zero") else "")],
                      "explored": [f"run:{mode}@depth{2 if (tier == 'thorough' and mode != 'calibration') else 1}"]},
             "samples": [{"part": "run", "mode": mode, "config": sub, "history": hists[-1], "reference": ref}]}
 
@@ -1036,6 +1097,13 @@ def shards(tier, seed):
     for sub in cal_cfgs:
         for isl in (1, 2):
             out.append({"part": "run", "mode": "calibration", "config": sub, "islands": isl, "tier": tier, "seed": seed})
+    # the seed value 0 (pipeline seed and optimiser seed) on the first configuration of every mode
+    first = run_configs(tier)[0]
+    for mode in ("exposure", "obs_seq", "obs_dask"):
+        out.append({"part": "run", "mode": mode, "config": first, "tier": tier, "seed": seed, "zero": True})
+    for isl in (1, 2):
+        out.append({"part": "run", "mode": "calibration", "config": first, "islands": isl, "tier": tier, "seed": seed,
+                    "zero": True})
     # slowest first
     order = {"run": 0, "model": 1, "helper": 2, "targets": 3}
     out.sort(key=lambda s: (order[s["part"]], 0 if s.get("mode") in ("calibration", "obs_dask") else 1))
